@@ -671,6 +671,7 @@ MESH_MODES = ('infile', 'infile', 'ascii', 'binary')
 
 class DataStoreMachine(StoreMachine):
     PROP = 'C01'
+    NAMES = ('a', 'run.1', 'run.2')      # two names share the text before their first dot
     OPS = ('NEW', 'MUTATE', 'W', 'R', 'CYCLE', 'SHIPPED', 'CRASH', 'PERMUTE')
     STEP_BUDGET = 6000000
     STRIP_FIRST = True
@@ -766,9 +767,13 @@ class DataStoreMachine(StoreMachine):
         try:
             compare_data(want, got, cfg, what)
         except Violation as v:
+            xp = cfg.get('xp') or []
             if cfg.get('reinsert_risk') and v.check in ('O1.short', 'O1.foft', 'O1.coft',
                                                         'O1.goft', 'O1.sections'):
                 v.key = 'permuted-sections+xp-reinsert'
+            elif cfg.get('mesh') not in (None, 'infile') and \
+                    (('ELEME' in xp) != ('CONNE' in xp)) and v.check in ('O1.conne', 'O1.eleme'):
+                v.key = 'xp:mesh-file+ELEME-xor-CONNE'
             raise
 
     def cfg_fp(self, cfg):
@@ -862,6 +867,8 @@ class DataStoreMachine(StoreMachine):
             return 'xp:ELEME-without-ROCKS'
         if isinstance(e, KeyError) and 'CONNE' in xp and 'ELEME' not in xp:
             return 'xp:CONNE-without-ELEME'
+        if cfg.get('mesh') not in (None, 'infile') and (('ELEME' in xp) != ('CONNE' in xp)):
+            return 'xp:mesh-file+ELEME-xor-CONNE'
         return '-'
 
     # ---- ops
@@ -890,7 +897,7 @@ class DataStoreMachine(StoreMachine):
             if cfg is None:
                 ctx.stats['skip_W_domain'] += 1
                 return
-            name = self.NAMES[ni % 3]
+            name = self.NAMES[ni % len(self.NAMES)]
             stale = name + '.pdat'
             if not cfg.get('xp') and stale in ctx.fs.files and dat.type == 'AUTOUGH2':
                 # a companion left by an earlier write of this name would be read by design
@@ -960,9 +967,9 @@ class DataStoreMachine(StoreMachine):
                 cfg['echo_arg'] = (None, True, False)[echoc % 3]
                 echo = dat.echo_extra_precision if cfg['echo_arg'] is None else cfg['echo_arg']
                 cfg['echo_off'] = not echo
-                if cfg['mesh'] != 'infile' and ('ELEME' in eff or 'CONNE' in eff):
-                    return None   # mesh both in a mesh file and in the companion: not a config
-                                  # the property lists
+                if cfg['mesh'] != 'infile' and ('ELEME' in eff or 'CONNE' in eff) and echo:
+                    return None   # echoed mesh sections have no main-file place next to a mesh
+                                  # file: not a configuration the property lists
         return cfg
 
     def mutate(self, ch):
@@ -972,7 +979,7 @@ class DataStoreMachine(StoreMachine):
             ctx.stats['skip_MUTATE'] += 1
             return
         rng = random.Random(H('mutate', ch[1]))
-        what = ch[2] % 6
+        what = ch[2] % 10
         g = dat.grid
         if what == 0 and g.rocktypelist:
             rt = rng.choice(g.rocktypelist)
@@ -997,6 +1004,19 @@ class DataStoreMachine(StoreMachine):
             dat.start = not dat.start
         elif what == 5 and dat.output_times:
             dat.output_times = {}
+        elif what == 6 and g.rocktypelist:
+            g.sort_rocktypes()
+        elif what == 7 and g.rocktypelist:
+            rt = rng.choice(g.rocktypelist)
+            new = rockname(rng, set(g.rocktype))
+            if rt.name not in dat.indom:
+                g.rename_rocktype(rt.name, new)
+        elif what == 8 and g.blocklist:
+            names = [b.name for b in g.blocklist]
+            rng.shuffle(names)
+            g.reorder(names)
+        elif what == 9 and g.blocklist:
+            g.demote_block(rng.choice(g.blocklist).name)
         ctx.fp.append(('M', what))
         ctx.digest.add('MUTATE', what)
 
@@ -1040,7 +1060,7 @@ class DataStoreMachine(StoreMachine):
         files = sorted(os.listdir(base))
         if main is None:
             main = [f for f in files if f.endswith('.dat')][0]
-        name = self.NAMES[ch[0] % 3]
+        name = self.NAMES[ch[0] % len(self.NAMES)]
         cfg = {'mesh': 'infile', 'xp': [], 'foreign': True, 'present': []}
         ctx.fs.put(name + '.dat', fbytes(d + '/' + main))
         if isinstance(mesh, str):
